@@ -65,6 +65,7 @@ func judge(c *engine.Chooser, area, class, tag string, l lit, mustReject, instan
 		out, err = l.construct()
 		return
 	})
+	c.Logf("%s %s -> %v", l.sch, tag, r)
 	switch {
 	case r.hung:
 		c.Fail("C19/"+area+"/constructor-hang@"+class, "%s %s: %v", l.sch, tag, r)
@@ -242,9 +243,16 @@ func familyLogN(s scheme, rt ring.Type) engine.Scenario {
 		l.rl.LogN, l.rl.RingType = logN, rt
 		inRange := logN >= rlwe.MinLogN && logN <= rlwe.MaxLogN
 		build := inRange && logN <= 12
-		if build {
+		switch {
+		case build:
 			l.rl.Q, l.rl.P = goodQ(logN, rt), goodP(logN, rt)
-		} else {
+		case !inRange && logN >= 1 && logN <= rlwe.MaxLogN+1:
+			// just outside the range: moduli that would be perfectly valid for that degree, so that the degree is the
+			// only reason to refuse (N=8 is a ring the ring package itself supports)
+			l.rl.Q, l.rl.P = goodQ(logN, rt), nil
+		case !inRange:
+			l.rl.Q, l.rl.P = []uint64{97}, nil
+		default:
 			l.rl.Q, l.rl.P = []uint64{13}, nil
 		}
 		defaults(&l)
@@ -419,38 +427,46 @@ func familyNthRootHuge(s scheme, lr int) engine.Scenario {
 }
 
 type distCase struct {
-	name string
-	d    ring.DistributionParameters
-	bad  bool
+	name  string
+	d     ring.DistributionParameters
+	bad   bool
+	group string // root-cause class used in signatures (Xs and Xe share the samplers); "" = name
+}
+
+func (d distCase) class() string {
+	if d.group != "" {
+		return d.group
+	}
+	return d.name
 }
 
 func distCases(N int) []distCase {
 	return []distCase{
-		{"default", nil, false},
-		{"ternary-H=1", ring.Ternary{H: 1}, false},
-		{"ternary-H=N/2", ring.Ternary{H: N / 2}, false},
-		{"ternary-H=N", ring.Ternary{H: N}, false},
-		{"ternary-P=0.5", ring.Ternary{P: 0.5}, false},
-		{"ternary-P=2/3", ring.Ternary{P: 2.0 / 3}, false},
-		{"ternary-P=1", ring.Ternary{P: 1}, false},
-		{"gaussian-3.2", ring.DiscreteGaussian{Sigma: 3.2, Bound: 19.2}, false},
-		{"gaussian-0.5", ring.DiscreteGaussian{Sigma: 0.5, Bound: 3}, false},
+		{"default", nil, false, ""},
+		{"ternary-H=1", ring.Ternary{H: 1}, false, ""},
+		{"ternary-H=N/2", ring.Ternary{H: N / 2}, false, ""},
+		{"ternary-H=N", ring.Ternary{H: N}, false, ""},
+		{"ternary-P=0.5", ring.Ternary{P: 0.5}, false, ""},
+		{"ternary-P=2/3", ring.Ternary{P: 2.0 / 3}, false, ""},
+		{"ternary-P=1", ring.Ternary{P: 1}, false, ""},
+		{"gaussian-3.2", ring.DiscreteGaussian{Sigma: 3.2, Bound: 19.2}, false, ""},
+		{"gaussian-0.5", ring.DiscreteGaussian{Sigma: 0.5, Bound: 3}, false, ""},
 		// outside the documented domain (ring/sampler.go: exactly one of H, P non-zero; P a probability; H a weight <= N;
 		// sigma a standard deviation; bound the truncation of its support)
-		{"ternary-H=N+1", ring.Ternary{H: N + 1}, true},
-		{"ternary-H=-1", ring.Ternary{H: -1}, true},
-		{"ternary-P=1.5", ring.Ternary{P: 1.5}, true},
-		{"ternary-P=-0.1", ring.Ternary{P: -0.1}, true},
-		{"ternary-P=NaN", ring.Ternary{P: math.NaN()}, true},
-		{"ternary-H-and-P", ring.Ternary{H: 4, P: 0.5}, true},
-		{"ternary-zero", ring.Ternary{}, true},
-		{"gaussian-sigma=0", ring.DiscreteGaussian{Sigma: 0, Bound: 19.2}, true},
-		{"gaussian-sigma<0", ring.DiscreteGaussian{Sigma: -3.2, Bound: 19.2}, true},
-		{"gaussian-bound=0", ring.DiscreteGaussian{Sigma: 3.2, Bound: 0}, true},
-		{"gaussian-bound<0", ring.DiscreteGaussian{Sigma: 3.2, Bound: -1}, true},
-		{"gaussian-sigma=NaN", ring.DiscreteGaussian{Sigma: math.NaN(), Bound: 19.2}, true},
-		{"gaussian-sigma=Inf", ring.DiscreteGaussian{Sigma: math.Inf(1), Bound: 19.2}, true},
-		{"uniform", ring.Uniform{}, true},
+		{"ternary-H=N+1", ring.Ternary{H: N + 1}, true, "ternary-H-not-a-weight"},
+		{"ternary-H=-1", ring.Ternary{H: -1}, true, "ternary-H-not-a-weight"},
+		{"ternary-P=1.5", ring.Ternary{P: 1.5}, true, "ternary-P-not-a-probability"},
+		{"ternary-P=-0.1", ring.Ternary{P: -0.1}, true, "ternary-P-not-a-probability"},
+		{"ternary-P=NaN", ring.Ternary{P: math.NaN()}, true, "ternary-P-not-a-probability"},
+		{"ternary-H-and-P", ring.Ternary{H: 4, P: 0.5}, true, ""},
+		{"ternary-zero", ring.Ternary{}, true, ""},
+		{"gaussian-sigma=0", ring.DiscreteGaussian{Sigma: 0, Bound: 19.2}, true, ""},
+		{"gaussian-sigma<0", ring.DiscreteGaussian{Sigma: -3.2, Bound: 19.2}, true, ""},
+		{"gaussian-bound=0", ring.DiscreteGaussian{Sigma: 3.2, Bound: 0}, true, "gaussian-degenerate"},
+		{"gaussian-bound<0", ring.DiscreteGaussian{Sigma: 3.2, Bound: -1}, true, "gaussian-degenerate"},
+		{"gaussian-sigma=NaN", ring.DiscreteGaussian{Sigma: math.NaN(), Bound: 19.2}, true, "gaussian-degenerate"},
+		{"gaussian-sigma=Inf", ring.DiscreteGaussian{Sigma: math.Inf(1), Bound: 19.2}, true, "gaussian-degenerate"},
+		{"uniform", ring.Uniform{}, true, ""},
 	}
 }
 
@@ -484,7 +500,7 @@ func familyDist(s scheme) engine.Scenario {
 		uni.Seed(c, name, which, d.name)
 		fld := []string{"Xs", "Xe"}[which]
 		c.Cover("dist", fld+"="+d.name)
-		judge(c, "accept/dist", fld+"="+d.name, fmt.Sprintf("%s=%s(%+v)", fld, reflect.TypeOf(d.d), d.d), distLiteral(s, which, d), false, true)
+		judge(c, "accept/dist", d.class(), fmt.Sprintf("%s=%s(%+v)", fld, reflect.TypeOf(d.d), d.d), distLiteral(s, which, d), false, true)
 	}}
 }
 
@@ -499,12 +515,12 @@ func familyDistInvalid(s scheme, which int, d distCase) engine.Scenario {
 		c.Cover("dist-invalid", fld+"="+d.name)
 		tag := fmt.Sprintf("%s=%s(%+v)", fld, reflect.TypeOf(d.d), d.d)
 		if !inChild() {
-			supervise(c, name, nil, nil, "C19/accept/dist/fatal-error-after-acceptance@"+fld+"="+d.name, fmt.Sprintf("%s %s", s, tag))
+			supervise(c, name, nil, nil, "C19/accept/dist/fatal-error-after-acceptance@"+d.class(), fmt.Sprintf("%s %s", s, tag))
 			c.Outcome(name, c.Failed())
 			return
 		}
 		uni.Seed(c, name)
-		judge(c, "accept/dist", fld+"="+d.name, tag, distLiteral(s, which, d), false, true)
+		judge(c, "accept/dist", d.class(), tag, distLiteral(s, which, d), false, true)
 	}}
 }
 
@@ -564,8 +580,8 @@ func familyBigT() engine.Scenario {
 		t := ref.PrimesNear(uint64(1)<<b, 2*N, 1, true)[0]
 		l := lit{sch: sBGV, t: t}
 		l.rl.LogN = logN
-		// q0 is the largest prime the catalogue considers safe (below 2^64/6), larger than every t <= 61 bits
-		l.rl.Q = []uint64{ref.PrimesNear(lazyNTTLimit, 2*N, 1, true)[0], ref.PrimesNear(1<<50, 2*N, 1, true)[0]}
+		// q0 is the largest modulus of supported size (below 2^61)
+		l.rl.Q = []uint64{ref.PrimesNear(supportedLimit, 2*N, 1, true)[0], ref.PrimesNear(1<<50, 2*N, 1, true)[0]}
 		l.rl.P = ref.PrimesNear(1<<51, 2*N, 1, false)
 		c.Cover("bgv-big-t", fmt.Sprint(b))
 		judge(c, "accept/bgv-big-t", "t-by-bit-size", fmt.Sprintf("t=%d (%d bits) q0=%d", t, b, l.rl.Q[0]), l, t > l.rl.Q[0], true)
@@ -584,7 +600,13 @@ func familyScale(rt ring.Type) engine.Scenario {
 		l.rl.LogQ, l.rl.LogP = []int{55, 45, 45}, []int{56}
 		c.Cover("ckks-scale", fmt.Sprint(ls))
 		// documented: rejected above 128 (and, per the error message, below 0)
-		judge(c, "accept/ckks-scale", map[bool]string{true: "out-of-range", false: "in-range"}[ls < 0 || ls > 128],
+		class := "LogDefaultScale-in-range"
+		if ls < 0 {
+			class = "LogDefaultScale<0"
+		} else if ls > 128 {
+			class = "LogDefaultScale>128"
+		}
+		judge(c, "accept/ckks-scale", class,
 			fmt.Sprintf("LogDefaultScale=%d %s", ls, rtName(rt)), l, ls < 0 || ls > 128, true)
 	}}
 }
